@@ -171,6 +171,11 @@ func init() {
 	}
 	checks["c09"] = checkDef{"C09",
 		"adaptive programs on a versioned bucket (two thirds with objects that predate enabling): put / copy (incl. from a version) / delete / delete-by-version / batch delete / get- and head-by-version (issued ids, `null`, a never-issued id) / list-versions / enable-suspend / tagging, then ListObjectVersions and a GET of every id ever issued; version ids are read from the implementation's answers and handed to the model. Compared with Model.Gw.step (per-key version stacks). Non-trivial = program reaches the bucket; distinct by op list.",
-		[]checkFn{fam("versions-xattr", false, false, 901, 240, 6000), fam("versions-namedtmp", false, true, 902, 60, 2000)}}
+		[]checkFn{fam("versions-xattr", false, false, 901, 240, 6000), fam("versions-namedtmp", false, true, 902, 60, 2000),
+			// multipart completions replace current versions too: the programs of C08's versioned family, judged here
+			func(a lib.Args, res *lib.Result) error {
+				return runPrograms(a, res, progOpts{name: "versions-multipart", prop: "C09", programs: tierN(a, 40, 1200), next: c08Next(true), versioning: true,
+					nGateways: 2, classify: c09Classify, seedOff: 903})
+			}}}
 	_ = strings.Join
 }
